@@ -121,6 +121,7 @@ func lemAllMissing(revisions []snap.Revision, sis []*sequence.RevisionSideState,
 //@ func (*SnapManager).undoLinkSnap
 //@   props C10
 //@   callpre assumed
+//@   guard call readInfo: [revert-status-restored-by-now] isRevert ==> snapst.RevertStatus == oldRevertStatus
 //@   guard store Revision.N: [current-from-task] val == oldCurrent.N
 //@   guard store SnapState.Active: [inactive-until-relinked] obj == snapst && !val
 //@   guard store SnapState.TrackingChannel: [channel-from-task] obj == snapst && val == oldChannel
